@@ -24,7 +24,8 @@ RULE = (
     'argument in each unit/dtype configuration of its parameter (configurations whose unit and dtype equal the '
     'internal target come first, so copy=False conversions alias; float64 and float32; scalar and array shapes) and '
     'seeded mixed configurations; all arguments are deep-snapshotted (values, variances, units, dtypes, dims, masks, '
-    'coords, bin contents, nested dataclasses / dicts / model objects; for container arguments — chopper lists, model / '
+    'coords, bin contents, nested dataclasses / dicts / model objects — also when the call raises, with a table of argument '
+    'sets that drive every entry point into its documented error paths; for container arguments — chopper lists, model / '
     'name lists, lists of FitResult, CIF content / author / reducer lists, SQW experiment lists — also identity and order '
     'of the elements) before and after. '
     '(hist) every sequence of up to 3 factory / lookup / combinator calls per factory family, each followed by every '
@@ -295,14 +296,17 @@ def call_and_compare(ctx, label, cfg, fn, args, kwargs, extra=None):
     after = snap((args, kwargs))
     ids_after = ident((args, kwargs))
     ctx.case(('arg', label, cfg), True, sample={'op': 'call', 'function': label, 'config': cfg, 'raised': err})
+    kind = 'arg-mutated-on-error' if err else 'arg-mutated'
+    if (extra or {}).get('table') == 'error_calls':
+        ctx.count('error-call:' + ('raised:' + err if err else 'did-not-raise'))
     if ids_before != ids_after and before == after:
-        report(ctx, f'C09:arg-mutated:{label}', f'{label} changed the identity or order of the elements of a container argument in configuration {cfg}',
+        report(ctx, f'C09:{kind}:{label}', f'{label} changed the identity or order of the elements of a container argument in configuration {cfg}',
                {'kind': 'arg', 'function': label, 'config': cfg, 'diff': 'container identity/order', **(extra or {})})
         return True
     ctx.count('call:' + label.split('.')[0] + (':raised' if err else ''))
     if before != after:
         d = first_diff(before, after)
-        report(ctx, f'C09:arg-mutated:{label}', f'{label} modified an argument in configuration {cfg}: {d}',
+        report(ctx, f'C09:{kind}:{label}', f'{label} modified an argument in configuration {cfg}' + (f' although it raised {err}' if err else '') + f': {d}',
                       {'kind': 'arg', 'function': label, 'config': cfg, 'diff': d, **(extra or {})})
         return True
     return False
@@ -708,7 +712,190 @@ def atoms_calls(ctx, deep):
         yield 'ScatteringParams.for_isotope', iso, ScatteringParams.for_isotope, (iso,), {}, {}
 
 
-CALL_TABLES = [kernel_calls, convert_calls, chopper_calls, peaks_calls, absorption_calls, io_calls, atoms_calls]
+
+def error_calls(ctx, deep):
+    """argument sets that drive the public entry points into their documented error paths: the arguments must be
+    unchanged after a raising call too"""
+    import numpy as np
+    import scipp as sc
+    from scippneutron import convert
+    from scippneutron.absorption import compute_transmission_map
+    from scippneutron.atoms import Atom, ScatteringParams
+    from scippneutron.chopper import DiskChopper, collapse_plateaus, filter_in_phase, find_plateaus
+    from scippneutron.io import cif, load_xye, save_xye
+    from scippneutron.peaks import fit_peaks, remove_peaks
+    from scippneutron.peaks import model as M
+    from scippneutron.tof import chopper_cascade as cc
+
+    # --- find_plateaus: a slow drift, every step below atol but the whole plateau far above it (documented RuntimeError)
+    for tunit, dtype in [('s', 'float64'), ('ns', 'int64')]:
+        for repeat in (1, 2):
+            t = sc.array(dims=['time'], values=np.arange(40) * 1000, unit='ns').to(unit=tunit, dtype=dtype)
+            atol = sc.scalar(1e-4, unit='Hz/ns').to(unit=f'Hz/{tunit}')
+            step = 0.6 * 1e-4 * 1000        # Hz per sample: derivative = 0.6 atol
+            da = sc.DataArray(sc.array(dims=['time'], values=14.0 + step * np.arange(40), unit='Hz'), coords={'time': t})
+
+            def drift(d, a, n=repeat):
+                last = None
+                for _ in range(n):
+                    try:
+                        return find_plateaus(d, atol=a, min_n_points=4)
+                    except RuntimeError as e:
+                        last = e
+                raise last
+            yield 'find_plateaus', f'drift guard,time={tunit}/{dtype},calls={repeat}', drift, (da, atol), {}, {}
+    yield 'find_plateaus', 'atol with a wrong unit', find_plateaus, (da,), {'atol': sc.scalar(1.0, unit='m'), 'min_n_points': 4}, {}
+    yield 'collapse_plateaus', 'missing coord', collapse_plateaus, (da,), {'coord': 'nope'}, {}
+    yield 'filter_in_phase', 'reference with a wrong unit', filter_in_phase, (da,), {'reference': sc.scalar(1.0, unit='m'), 'rtol': sc.scalar(0.1)}, {}
+
+    # --- peaks
+    xs = np.linspace(0.5, 10, 60)
+    y = 5 + 40 * np.exp(-(xs - 4) ** 2 / 0.08)
+
+    def mkda(variances=True, unit='angstrom'):
+        return sc.DataArray(sc.array(dims=['x'], values=y, variances=np.maximum(y, 1) / 20 if variances else None, unit='counts'),
+                            coords={'x': sc.array(dims=['x'], values=xs, unit=unit)})
+    est = sc.array(dims=['x'], values=[4.0, 8.0], unit='angstrom')
+    good = {'peak_estimates': est, 'windows': sc.scalar(2.0, unit='angstrom'), 'background': ['linear'], 'peak': ['gaussian']}
+    bad_sets = {
+        'window unit mismatch': {**good, 'windows': sc.scalar(2.0, unit='s')},
+        'explicit windows of the wrong shape': {**good, 'windows': sc.array(dims=['x', 'range'], values=[[3.0, 5.0, 6.0]], unit='angstrom')},
+        'inverted explicit window': {**good, 'windows': sc.array(dims=['x', 'range'], values=[[5.0, 3.0], [7.0, 9.0]], unit='angstrom')},
+        'unsorted estimates': {**good, 'peak_estimates': sc.array(dims=['x'], values=[8.0, 4.0], unit='angstrom')},
+        'estimate unit mismatch': {**good, 'peak_estimates': sc.array(dims=['x'], values=[4.0], unit='s')},
+        'empty model list': {**good, 'peak': []},
+        'unknown model name': {**good, 'background': ['cubic', 'linear']},
+        'model instance list with a non-model': {**good, 'peak': [M.GaussianModel(), 3]},
+    }
+    for name, kw in bad_sets.items():
+        yield 'fit_peaks', name, fit_peaks, (mkda(),), kw, {}
+    yield 'fit_peaks', 'data without variances', fit_peaks, (mkda(variances=False),), good, {}
+    yield 'fit_peaks', '2-d data', fit_peaks, (sc.concat([mkda(), mkda()], 'y'),), good, {}
+    edges = sc.DataArray(mkda().data['x', :-1], coords={'x': mkda().coords['x']})
+    yield 'fit_peaks', 'bin-edge coordinate', fit_peaks, (edges,), good, {}
+    res = fit_peaks(mkda(), **good)
+    yield 'remove_peaks', 'data with variances', remove_peaks, (mkda(), res), {}, {}
+    yield 'remove_peaks', 'coordinate unit mismatch', remove_peaks, (sc.DataArray(sc.values(mkda().data), coords={'x': mkda(unit='s').coords['x']}), res), {}, {}
+    pp = {'amplitude': sc.scalar(3.0, unit='angstrom'), 'loc': sc.scalar(3.0, unit='angstrom')}
+    yield 'GaussianModel.__call__', 'missing parameter', (lambda m, x, d: m(x, **d)), (M.GaussianModel(), mkda().coords['x'], pp), {}, {}
+    yield 'PolynomialModel', 'degree 0', (lambda d: M.PolynomialModel(degree=d)), (0,), {}, {}
+    yield 'CompositeModel', 'clashing names', (lambda a, b: a + b), (M.GaussianModel(), M.LorentzianModel()), {}, {}
+
+    # --- save_xye refusals / load_xye
+    yield 'save_xye', 'no variances', (lambda d: save_xye(io.StringIO(), d)), (mkda(variances=False),), {}, {}
+    yield 'save_xye', '2-d', (lambda d: save_xye(io.StringIO(), d)), (sc.concat([mkda(), mkda()], 'y'),), {}, {}
+    masked = mkda()
+    masked.masks['m'] = masked.coords['x'] > sc.scalar(5.0, unit='angstrom')
+    yield 'save_xye', 'masks', (lambda d: save_xye(io.StringIO(), d)), (masked,), {}, {}
+    yield 'save_xye', 'no coordinates', (lambda d: save_xye(io.StringIO(), d)), (sc.DataArray(mkda().data),), {}, {}
+    yield 'save_xye', 'bin edges', (lambda d: save_xye(io.StringIO(), d)), (edges,), {}, {}
+    two = mkda()
+    two.coords['other'] = two.coords['x'] * 2
+    two = two.rename_dims(x='row')
+    yield 'save_xye', 'ambiguous coordinate', (lambda d: save_xye(io.StringIO(), d)), (two,), {}, {}
+    yield 'load_xye', 'malformed table', (lambda b: load_xye(b, dim='x', unit='counts', coord_unit='angstrom')), (io.StringIO('1 2 3\n4 five 6\n'),), {}, {}
+
+    # --- choppers
+    def disk(**over):
+        kw = {'axle_position': sc.vector([0.0, 0.0, 6.0], unit='m'), 'frequency': sc.scalar(14.0, unit='Hz'), 'beam_position': sc.scalar(0.3, unit='rad'),
+              'phase': sc.scalar(0.5, unit='rad'), 'slit_begin': sc.array(dims=['slit'], values=[0.0, 1.0], unit='rad'),
+              'slit_end': sc.array(dims=['slit'], values=[0.5, 1.6], unit='rad')}
+        kw.update(over)
+        return kw
+    for name, over in {
+        'slit arrays of different length': {'slit_end': sc.array(dims=['slit'], values=[0.5], unit='rad')},
+        'slit_begin with a length unit': {'slit_begin': sc.array(dims=['slit'], values=[0.0, 1.0], unit='m')},
+        '2-d slits': {'slit_begin': sc.zeros(sizes={'a': 2, 'b': 2}, unit='rad'), 'slit_end': sc.ones(sizes={'a': 2, 'b': 2}, unit='rad')},
+        'overlapping slits': {'slit_begin': sc.array(dims=['slit'], values=[0.0, 0.3], unit='rad')},
+        'frequency in metres': {'frequency': sc.scalar(14.0, unit='m')},
+    }.items():
+        yield 'DiskChopper', name, (lambda kw: DiskChopper(**kw)), (disk(**over),), {}, {}
+    ch = DiskChopper(**disk())
+    yield 'DiskChopper.time_offset_open', 'pulse frequency in metres', (lambda c, pf: c.time_offset_open(pulse_frequency=pf)), (ch, sc.scalar(14.0, unit='m')), {}, {}
+    yield 'DiskChopper.time_offset_open', 'pulse frequency not a multiple', (lambda c, pf: c.time_offset_open(pulse_frequency=pf)), (ch, sc.scalar(9.0, unit='Hz')), {}, {}
+    yield 'Chopper.from_disk_chopper', 'pulse frequency in metres', cc.Chopper.from_disk_chopper, (ch, sc.scalar(14.0, unit='m'), 2), {}, {}
+
+    def frames():
+        return cc.FrameSequence.from_source_pulse(time_min=sc.scalar(0.0, unit='ms'), time_max=sc.scalar(3.0, unit='ms'),
+                                                  wavelength_min=sc.scalar(0.5, unit='angstrom'), wavelength_max=sc.scalar(8.0, unit='angstrom'))
+
+    def chop(d, tunit='s'):
+        return cc.Chopper(distance=sc.scalar(d, unit='m'), time_open=sc.array(dims=['cutout'], values=[0.001, 0.009], unit=tunit),
+                          time_close=sc.array(dims=['cutout'], values=[0.004, 0.012], unit=tunit))
+    fs = frames().chop([chop(8.0)])
+    yield 'FrameSequence.chop', 'chopper before the last frame (ValueError)', (lambda f, c: f.chop(c)), (fs, [chop(9.0), chop(6.0)]), {}, {}
+    yield 'FrameSequence.chop', 'chopper times in ms (UnitError)', (lambda f, c: f.chop(c)), (frames(), [chop(6.0), chop(7.0, 'ms')]), {}, {}
+    yield 'Frame.chop', 'chopper before the frame', (lambda f, c: f.chop(c)), (fs[-1], chop(6.0)), {}, {}
+    yield 'FrameSequence.propagate_to', 'backwards', (lambda f, d: f.propagate_to(d)), (fs, sc.scalar(1.0, unit='m')), {}, {}
+    yield 'FrameSequence.propagate_to', 'distance in seconds', (lambda f, d: f.propagate_to(d)), (fs, sc.scalar(10.0, unit='s')), {}, {}
+
+    # --- convert / kernels
+    for binned in (False, True):
+        da2 = make_beamline(binned, ('us', 'float64'), 'm')
+        yield 'convert', f'unknown target,binned={binned}', convert, (da2,), {'origin': 'tof', 'target': 'nonsense', 'scatter': True}, {}
+        yield 'convert', f'unknown origin,binned={binned}', convert, (da2,), {'origin': 'nonsense', 'target': 'wavelength', 'scatter': True}, {}
+        da3 = make_beamline(binned, ('us', 'float64'), 'm')
+        del da3.coords['sample_position']
+        yield 'convert', f'missing sample_position,binned={binned}', convert, (da3,), {'origin': 'tof', 'target': 'dspacing', 'scatter': True}, {}
+        da4 = make_beamline(binned, ('us', 'float64'), 'm')
+        da4.coords['position'] = da4.coords['position'].to(unit='mm') * sc.scalar(1.0, unit='s/mm')
+        yield 'convert', f'position in seconds,binned={binned}', convert, (da4,), {'origin': 'tof', 'target': 'wavelength', 'scatter': True}, {}
+        yield 'convert', f'inelastic without energies,binned={binned}', convert, (make_beamline(binned, ('us', 'float64'), 'm'),), {'origin': 'tof', 'target': 'energy_transfer', 'scatter': True}, {}
+    from scippneutron.conversion import tof as tk
+    yield 'conversion.tof.wavelength_from_tof', 'Ltotal in seconds', tk.wavelength_from_tof, (), {'tof': sc.array(dims=['row'], values=[1.0, 2.0], unit='us'), 'Ltotal': sc.scalar(1.0, unit='s')}, {}
+    yield 'conversion.tof.energy_transfer_direct_from_tof', 'mismatched shapes', tk.energy_transfer_direct_from_tof, (), {
+        'tof': sc.array(dims=['row'], values=[4000.0, 5000.0], unit='us'), 'L1': sc.array(dims=['other'], values=[8.0, 9.0, 10.0], unit='m'),
+        'L2': sc.array(dims=['row'], values=[2.0, 3.0, 4.0], unit='m'), 'incident_energy': sc.scalar(500.0, unit='meV')}, {}
+
+    # --- absorption / atoms
+    from scippneutron.absorption.cylinder import Cylinder
+    from scippneutron.absorption.material import Material
+    cyl = Cylinder(symmetry_line=sc.vector([0.0, 1.0, 0.0]), center_of_base=sc.vector([0.0, -5.0, 0.0], unit='mm'), radius=sc.scalar(2.0, unit='mm'), height=sc.scalar(10.0, unit='mm'))
+    mat = Material(scattering_params=ScatteringParams.for_isotope('V'), effective_sample_number_density=sc.scalar(0.07, unit='1/angstrom**3'))
+    wav = sc.array(dims=['wavelength'], values=[1.0, 2.0], unit='angstrom')
+    det = sc.vectors(dims=['detector'], values=np.array([[1.0, 0.0, 1.0]]), unit='m')
+    yield 'compute_transmission_map', 'unknown quadrature kind', compute_transmission_map, (cyl, mat), {'beam_direction': sc.vector([0.0, 0.0, 1.0]), 'wavelength': wav, 'detector_position': det, 'quadrature_kind': 'nonsense'}, {}
+    yield 'compute_transmission_map', 'wavelength in seconds', compute_transmission_map, (cyl, mat), {'beam_direction': sc.vector([0.0, 0.0, 1.0]), 'wavelength': sc.array(dims=['wavelength'], values=[1.0], unit='s'), 'detector_position': det, 'quadrature_kind': 'cheap'}, {}
+    yield 'Material.attenuation_coefficient', 'wavelength in seconds', (lambda m, w: m.attenuation_coefficient(w)), (mat, sc.scalar(1.0, unit='s')), {}, {}
+    yield 'Atom.for_isotope', 'unknown isotope', Atom.for_isotope, ('Xx',), {}, {}
+    yield 'ScatteringParams.for_isotope', 'unknown isotope', ScatteringParams.for_isotope, ('999H',), {}, {}
+
+    # --- CIF
+    loop = cif.Loop({'_a': sc.arange('r', 3.0)})
+    chunk = cif.Chunk({'_k': 1})
+    content = [chunk, loop]
+    yield 'Block', 'name with a space', (lambda n, c: cif.Block(n, c)), ('bad name', content), {}, {}
+    yield 'Block', 'non-ascii name', (lambda n, c: cif.Block(n, c)), ('bläck', content), {}, {}
+    yield 'Loop', 'columns of different length', (lambda d: cif.Loop(d).write(io.StringIO())), ({'_a': sc.arange('r', 3.0), '_b': sc.arange('r', 4.0)},), {}, {}
+    yield 'Loop', '2-d column', (lambda d: cif.Loop(d).write(io.StringIO())), ({'_a': sc.zeros(sizes={'r': 2, 'c': 2})},), {}, {}
+    yield 'Chunk', 'array value', (lambda d: cif.Chunk(d).write(io.StringIO())), ({'_a': sc.arange('r', 3.0)},), {}, {}
+    builder = cif.CIF('blk').with_reducers('r')
+    yield 'CIF.with_reduced_powder_data', 'data without variances / wrong coordinate', (lambda b, d: b.with_reduced_powder_data(d).save(io.StringIO())), (builder, mkda(variances=False)), {}, {}
+    yield 'CIF.with_reduced_powder_data', '2-d data', (lambda b, d: b.with_reduced_powder_data(d).save(io.StringIO())), (builder, sc.concat([mkda(), mkda()], 'y')), {}, {}
+    yield 'CIF.with_powder_calibration', 'missing power coordinate', (lambda b, d: b.with_powder_calibration(d).save(io.StringIO())), (builder, sc.DataArray(sc.arange('cal', 3.0))), {}, {}
+    yield 'CIF', 'name with a space', (lambda n: cif.CIF(n).save(io.StringIO())), ('bad name',), {}, {}
+    yield 'save_cif', 'to a directory that does not exist', (lambda b: cif.save_cif('/nonexistent-dir-c09/x.cif', b)), (builder,), {}, {}
+
+    # --- SQW builder
+    try:
+        from io import BytesIO
+
+        from scippneutron.io.sqw import Sqw
+        o = sqw_objects(preset_names=True)
+        pix_bad = o['pixels'].copy()
+        del pix_bad.coords['u3']
+        yield 'SqwBuilder.add_pixel_data', 'missing pixel coordinate', (lambda p_, e: Sqw.build(BytesIO()).add_pixel_data(p_, experiments=e).create()), (pix_bad, o['experiments']), {}, {}
+        pix_unit = o['pixels'].copy()
+        pix_unit.coords['u4'] = pix_unit.coords['u4'].to(unit='meV') * sc.scalar(1.0, unit='s/meV')
+        yield 'SqwBuilder.add_pixel_data', 'energy coordinate in seconds', (lambda p_, e: Sqw.build(BytesIO()).add_pixel_data(p_, experiments=e).create()), (pix_unit, o['experiments']), {}, {}
+        yield 'SqwBuilder.create', 'path in a directory that does not exist', (lambda m: Sqw.build('/nonexistent-dir-c09/x.sqw').add_empty_dnd_data(m).create()), (o['metadata'],), {}, {}
+        yield 'SqwBuilder.add_pixel_data', 'unknown row name', (lambda p_, e: Sqw.build(BytesIO()).add_pixel_data(p_, experiments=e, rows=('u1', 'nope'), row_units=('1/angstrom', None)).create()), (o['pixels'], o['experiments']), {}, {}
+        yield 'Sqw.build', 'unknown byteorder', (lambda m: Sqw.build(BytesIO(), byteorder='middle').add_empty_dnd_data(m).create()), (o['metadata'],), {}, {}
+    except ImportError:
+        pass
+
+
+CALL_TABLES = [kernel_calls, convert_calls, chopper_calls, peaks_calls, absorption_calls, io_calls, atoms_calls, error_calls]
 
 
 def run_calls(ctx, deep):
